@@ -45,8 +45,12 @@ def structNames : List Bytes := [b!"room_id", b!"sender", b!"type", b!"state_key
   b!"unsigned", b!"origin_server_ts", b!"event_id", b!"prev_events", b!"auth_events", b!"msc4354_sticky", b!"sticky",
   b!"hashes", b!"signatures", b!"prev_state", b!"origin", b!"membership", b!"outlier", b!"destinations", b!"age_ts"]
 
-def hasFoldVariant (o : Obj) : Bool :=
-  o.any (fun kv => structNames.any (fun n => foldBytes n == foldBytes kv.1 && n != kv.1))
+/-- Does the event carry a case variant of a name the structs read?  In the event formats with
+    hashed IDs a variant of `event_id` is not counted: C03 demands that it has no influence (the ID
+    is the reference hash), so such events stay inside the specification. -/
+def hasFoldVariant (format : Nat) (o : Obj) : Bool :=
+  o.any (fun kv => structNames.any (fun n =>
+    foldBytes n == foldBytes kv.1 && n != kv.1 && !(format != 1 && n == b!"event_id")))
 
 def refIDs (format : Nat) (v : Option JVal) : Option (List Bytes) :=
   match v with
@@ -83,13 +87,13 @@ def untrustedExpect (H : Bytes → Bytes) (ver : Bytes) (t : Bytes) : Except Str
   | some row, some p =>
     match p.toJVal with
     | .obj o0 =>
-      if hasFoldVariant o0 then .error "case variant of a protected key" else
+      if hasFoldVariant row.eventFormat o0 then .error "case variant of a protected key" else
       let o := o0.filter (fun kv => !(strippedKeys row.eventFormat).contains kv.1)
       let ok := hashOk H o
       let final : Except String Obj :=
         if ok then .ok o
         else match redactJSON ver (.obj o) with
-          | .ok (.obj r) => .ok r
+          | .ok (.obj r) => .ok (if row.eventFormat == 1 then r else r.filter (fun kv => kv.1 != b!"event_id"))
           | _ => .error "redaction fails or is not modelled"
       match final with
       | .error w => .error w
